@@ -99,3 +99,93 @@ Example C07_example :
   store (run idig db0 (firstn 3 ops)) = [(7, 7); (9, 9)]%Z /\
   map snd (prime (dcat (run idig db0 (firstn 3 ops)))) = [7; 7]%Z.
 Proof. vm_compute. repeat split; reflexivity. Qed.
+
+(* ---- faults the process SURVIVES ---------------------------------------------------------
+   Model/StoreFault.v: a client call `(w, ops)` whose w-th write to one of the
+   five name tables is refused by the file system (OSError) ends with that
+   exception and the database process carries on; the updates of a history may
+   in addition stop after any number of their six atomic steps (`steps`; a
+   refused rename / primary-table write is such a stop).  The model keeps no
+   state in memory besides the id->name indices, and those are a function of
+   the persisted tables (C07_survivor_is_restart): a fault the process
+   survives and a crash followed by a restart leave the same state.  The
+   hypothesis `plain_group` (no ':' in a name) is the one of C08. *)
+From DV Require Import Model.StoreFault Proofs.CatalogueProofs Proofs.StoreFaultProofs.
+
+Theorem C07_no_dangling_faults : forall digest gs,
+  Forall plain_group gs ->
+  let d := run_f digest db0 gs in
+  (forall k b, In (k, b) (prime (dcat d)) -> In b (map fst (store d))) /\
+  (forall b c, In (b, c) (store d) -> b = digest c) /\
+  NoDup (map fst (store d)).
+Proof.
+  intros digest gs Hp d.
+  destruct (SF_run digest gs db0 (SF_Iall0 digest) Hp) as [[_ (Hn & Hs & Hd)] _].
+  split; [exact Hd|split; [exact Hn|exact Hs]].
+Qed.
+Print Assumptions C07_no_dangling_faults.
+
+(* novelty after a history with faults: the flag of a completed update is true
+   exactly when the digest (with an injective digest: the content) was not in
+   the store *)
+Theorem C07_isnew_iff_faults : forall digest gs r tn id c d' isnew,
+  Forall plain_group gs ->
+  let d := run_f digest db0 gs in
+  update1 digest d r tn id c None = (d', RNew isnew) ->
+  (isnew = true <-> ~ In (digest c) (map fst (store d))) /\
+  ((forall c', In c' (map snd (store d)) -> digest c' = digest c -> c' = c) ->
+   (isnew = true <-> ~ In c (map snd (store d)))).
+Proof.
+  intros digest gs r tn id c d' isnew Hp d H. split.
+  - eapply SP_isnew_digest; eauto.
+  - intros Hinj. eapply SP_isnew_content; eauto.
+    destruct (SF_run digest gs db0 (SF_Iall0 digest) Hp) as [[_ (Hn & _)] _]. exact Hn.
+Qed.
+Print Assumptions C07_isnew_iff_faults.
+
+(* the refused call stores nothing and records nothing *)
+Theorem C07_refused_call_stores_nothing : forall digest gs w o d' w',
+  Forall plain_group gs -> plain_op o ->
+  let d := run_f digest db0 gs in
+  exec_g append_f digest w d o = (d', None, w') ->
+  store d' = store d /\ stage d' = stage d /\ prime (dcat d') = prime (dcat d).
+Proof.
+  intros digest gs w o d' w' Hp Ho d H.
+  destruct (SF_run digest gs db0 (SF_Iall0 digest) Hp) as [[HI _] _].
+  destruct (SF_exec_cases digest _ _ _ _ _ _ HI Ho H) as [(rep & E & _)|(_ & S & G & _ & P & _)];
+    [discriminate|auto].
+Qed.
+Print Assumptions C07_refused_call_stores_nothing.
+
+(* close / reopen (= what a restart does) after any history with faults is the
+   identity on the state *)
+Theorem C07_survivor_is_restart : forall digest gs,
+  Forall plain_group gs ->
+  let d := run_f digest db0 gs in
+  exec digest d OReopen = (d, RUnit).
+Proof.
+  intros digest gs Hp d.
+  destruct (SF_run digest gs db0 (SF_Iall0 digest) Hp) as [[(Hw & _) _] _].
+  cbn [exec]. rewrite SP_reopen_same by exact Hw. destruct d; reflexivity.
+Qed.
+Print Assumptions C07_survivor_is_restart.
+
+(* non-vacuity: the fourth table write of the first update is refused (no
+   file, no entry), the retry stops between rename and table write (file, no
+   entry), the second retry completes; the same content is then not new *)
+Example C07_example_faults :
+  let gs := [(4, [OUpd 1 [84] (ex_id s_alg) 7 None]);
+             (0, [OUpd 1 [84] (ex_id s_alg) 7 (Some 5)]);
+             (0, [OUpd 1 [84] (ex_id s_alg) 7 None])] in
+  Forall plain_group gs /\
+  store (run_f idig db0 (firstn 1 gs)) = [] /\
+  store (run_f idig db0 (firstn 2 gs)) = [(7, 7)]%Z /\
+  prime (dcat (run_f idig db0 (firstn 2 gs))) = [] /\
+  map snd (prime (dcat (run_f idig db0 gs))) = [7%Z] /\
+  snd (update1 idig (run_f idig db0 gs) 2 [84] (ex_id s_alg) 7 None) = RNew false.
+Proof.
+  split.
+  - unfold plain_group. repeat (apply Forall_cons || apply Forall_nil);
+      cbn; unfold plain_id, plain; cbn; intuition discriminate.
+  - vm_compute. repeat split; reflexivity.
+Qed.
